@@ -89,6 +89,10 @@ round2('C08-m3', 'C08', 'm1', [('c08_m1_demo_test.go', 'ogenregex')], GT + "-run
 round2('C08-m4', 'C08', 'm2', [('c08_m2_demo_test.go', 'ogenregex')], GT + "-run TestC08M2SurrogatePairEscape ./ogenregex/")
 round2('C20-m3', 'C20', 'm1', [('absent_target_test.go', 'cmd/ogen')], GT + "-run 'TestFailedGenerationDoesNotCreateTarget|TestSuccessfulGenerationCreatesTarget' ./cmd/ogen")
 round2('C20-m4', 'C20', 'm2', [('recursive_struct_test.go', 'cmd/ogen')], GT + "-run TestInfiniteRecursion ./cmd/ogen")
+round2('C06-m3', 'C06', 'm1', [('c06_m1_demo_test.go', 'uri')], GT + "-run TestC06M1 ./uri/")
+round2('C06-m4', 'C06', 'm2', [('c06_m2_demo_test.go', 'uri')], GT + "-run TestC06M2 ./uri/")
+round2('C18-m3', 'C18', 'm1', [('equal_wide_mantissa_test.go', 'json'), ('enum_wide_mantissa_test.go', 'jsonschema')], GT + "-run TestEqualWideMantissa ./json/ ; a=$?; " + GT + "-run TestEnumWideMantissa ./jsonschema/ ; b=$?; [ $a -eq 0 ] && [ $b -eq 0 ]")
+round2('C18-m4', 'C18', 'm2', [('enum_respelled_test.go', 'jsonschema')], GT + "-run TestEnumRespelled ./jsonschema/")
 # round2-entries
 TABLE.update(json.load(open('/verif/tools/seeded_extra.json')) if os.path.exists('/verif/tools/seeded_extra.json') else {})
 
